@@ -1,0 +1,73 @@
+//go:build verif && linux && !appengine
+
+package fsnotify
+
+import "os"
+
+// VerifWatch is a copy of one entry of the inotify wd table.
+type VerifWatch struct {
+	Wd      uint32
+	Flags   uint32
+	Path    string
+	Recurse bool
+}
+
+// VerifCookie is a copy of one slot of the rename-cookie ring.
+type VerifCookie struct {
+	Cookie uint32
+	Path   string
+}
+
+// VerifTablesSnapshot is a deep copy of the inotify backend's bookkeeping.
+type VerifTablesSnapshot struct {
+	Wd          map[uint32]VerifWatch
+	Path        map[string]uint32
+	Cookies     [10]VerifCookie
+	CookieIndex uint8
+}
+
+// VerifFd returns the inotify descriptor number of w.
+func VerifFd(w *Watcher) int { return w.b.(*inotify).fd }
+
+// VerifTables copies both watch tables and the cookie ring. With lock set the
+// copy is taken under the same mutex the backend uses.
+func VerifTables(w *Watcher, lock bool) VerifTablesSnapshot {
+	b := w.b.(*inotify)
+	if lock {
+		b.mu.Lock()
+		defer b.mu.Unlock()
+	}
+	s := VerifTablesSnapshot{
+		Wd:          make(map[uint32]VerifWatch, len(b.watches.wd)),
+		Path:        make(map[string]uint32, len(b.watches.path)),
+		CookieIndex: b.cookieIndex,
+	}
+	for k, v := range b.watches.wd {
+		if v == nil {
+			s.Wd[k] = VerifWatch{Wd: ^uint32(0), Path: "<nil>"}
+			continue
+		}
+		s.Wd[k] = VerifWatch{Wd: v.wd, Flags: v.flags, Path: v.path, Recurse: v.recurse}
+	}
+	for k, v := range b.watches.path {
+		s.Path[k] = v
+	}
+	for i, c := range b.cookies {
+		s.Cookies[i] = VerifCookie{Cookie: c.cookie, Path: c.path}
+	}
+	return s
+}
+
+// VerifNewEvent runs the inotify mask translation on a scratch backend value.
+func VerifNewEvent(name string, mask, cookie uint32) Event {
+	return (&inotify{}).newEvent(name, mask, cookie)
+}
+
+// VerifSetInotifyFile substitutes the file the reader goroutine reads from
+// (used to feed crafted inotify_event records); returns the previous one.
+func VerifSetInotifyFile(w *Watcher, f *os.File) *os.File {
+	b := w.b.(*inotify)
+	old := b.inotifyFile
+	b.inotifyFile = f
+	return old
+}
